@@ -336,6 +336,9 @@ def check_op(model, cfg, op, planted, limit, objective=None, sense=None, max_sol
         if tuple(planted) not in set(sols):
             fail("C02", "planted_solution_missed", "complete enumeration of %d solution(s) without the planted assignment "
                  "%r, which satisfies every constraint" % (len(sols), planted))
+            if cfg["calg"] == "shaving":
+                fail("C10", "shaving_lost_a_solution", "complete enumeration with shaving: %d solution(s), the planted "
+                     "assignment %r (satisfies every constraint) is not among them" % (len(sols), planted))
     if op == "optimise" and not cut:
         cnt("big.optimisations_completed")
         if best is None:
@@ -381,7 +384,8 @@ def run_big(task):
             res["truncated"] = True
             break
         model, plant = gen_big(rnd, task.get("gen"))
-        cfg = {"calg": rnd.choice(["bc", "bc", "bc", "shaving"]), "vh": rnd.choice(CFG_VH), "dh": rnd.choice(CFG_DH)}
+        cfg = {"calg": task.get("calg") or rnd.choice(["bc", "bc", "bc", "shaving"]), "vh": rnd.choice(CFG_VH),
+               "dh": rnd.choice(CFG_DH)}
         h = case_hash([model, cfg])
         res["hashes"].append(h)
         res["evals"] += 1
@@ -458,7 +462,7 @@ def replay_big(task):
     return {"fails": [f for f in fails if f["prop"] == task["prop"]]}
 
 
-def jobs(prop, tier, seed, n=None, count=None):
+def jobs(prop, tier, seed, n=None, count=None, calg=None):
     from framework.common import Job
 
     q = tier == "quick"
@@ -466,7 +470,7 @@ def jobs(prop, tier, seed, n=None, count=None):
     out = []
     for k in range(n):
         task = {"seed": seed * 6151 + k * 31 + 5, "count": count or (120 if q else 3000), "deadline_s": 45 if q else 900,
-                "pass_limit": 3000 if q else 20000, "exc_prop": prop,
+                "pass_limit": 3000 if q else 20000, "exc_prop": prop, "calg": calg,
                 "gen": {"max_vars": 14 if k % 2 == 0 else 24, "max_arity": 8 if k % 2 == 0 else 12}}
         out.append(Job("framework.props.bigrun", "run_big", task, mode="jit", timeout=300 if q else 1800,
                        tag="big:%d" % k, stall_s=90 if q else 180))
